@@ -33,26 +33,15 @@ def strip_comments(src):
 
 
 def load_known():
-    """known_findings.txt: `finding: property=Cxx id=Fk class=<name> witness=<program> :: <what fails>`
-    and `fixed: property=Cxx <commit> <what failed>` lines"""
+    """known_findings.txt: lines `finding: {json}` (keys property, id, class, kind, witness, outcome,
+    what) and `fixed: property=Cxx <commit> <what failed>`.  Never written at run time."""
     out = []
     if not os.path.exists(KNOWN_FILE):
         return out
     for line in open(KNOWN_FILE):
         line = line.strip()
-        if not line.startswith("finding:"):
-            continue
-        head, _, what = line[len("finding:"):].partition("::")
-        d = {"what": what.strip()}
-        m = re.search(r"witness=(.*)$", head)
-        if m:
-            d["witness"] = m.group(1).strip()
-            head = head[:m.start()]
-        for tok in head.split():
-            if "=" in tok:
-                k, v = tok.split("=", 1)
-                d[k] = v
-        out.append(d)
+        if line.startswith("finding:"):
+            out.append(json.loads(line[len("finding:"):]))
     return out
 
 
@@ -182,6 +171,100 @@ class Ctx:
             for p in programs:
                 bad.setdefault(p, {"iteration": 0, "impl": "", "twin": "replay driver failed"})
         return list(bad.items())
+
+    # ------------------------------------------------------------------ reference outcomes
+    def sc_check(self, programs, impl, max_states, soundness=True, completeness=True):
+        """Compare the implementation's explored outcomes with the outcomes of the reference
+        interleaving semantics (Spec/SC.lean).  Returns a list of failures
+        (program, kind, outcome) with kind in forbidden / missing / missed_failure."""
+        from checks import findings as F
+        sc = lvlib.run_sc(programs, max_states)
+        failures = []
+        stats = {"compared": 0, "skipped_for_size": 0, "sound_checked": 0, "reference_states": 0}
+        for p in programs:
+            its, done = lvlib.iterations(impl.get(p, []))
+            outs, capped, states = sc.get(p, (set(), True, 0))
+            stats["reference_states"] += states
+            if capped or not done or done[1] == "capped":
+                stats["skipped_for_size"] += 1
+                continue
+            if done[0] == "?":
+                failures.append((p, "abort", done[1]))
+                continue
+            stats["compared"] += 1
+            explored = [lvlib.outcome_str(it) for it in its]
+            eset = set(explored)
+            if soundness and not F.shared_atomic_rw(p) and not F.has(p, "fence"):
+                stats["sound_checked"] += 1
+                bad = [o for o in explored if o not in outs]
+                if bad:
+                    failures.append((p, "forbidden", bad[0]))
+            if completeness and done[1] == "ok":
+                miss = sorted(o for o in outs if o not in eset)
+                fail = [o for o in miss if not o.startswith("ok")]
+                if fail:
+                    failures.append((p, "missed_failure", fail[0]))
+                elif miss:
+                    failures.append((p, "missing", miss[0]))
+        for k, v in stats.items():
+            self.cov.setdefault("reference", {})
+            self.cov["reference"][k] = self.cov["reference"].get(k, 0) + v
+        return failures
+
+    def attribute(self, failures, differing, extra=None):
+        """known-finding protocol: a failure is attributed to a listed finding only on a program on
+        which implementation and twin agree and whose shape matches the finding's signature"""
+        from checks import findings as F
+        unlisted = 0
+        for p, kind, outcome in failures:
+            fid = None
+            if p not in differing:
+                for k in self.known:
+                    if F.match(k, p, kind, outcome):
+                        fid = k["id"]
+                        break
+            if fid:
+                self.note_finding(fid)
+            else:
+                unlisted += 1
+                if unlisted <= 5:
+                    self.violation("oracle-" + kind,
+                                   {"outcome": outcome, "implementation_equals_twin": p not in differing,
+                                    "note": "outcome is in the format of Spec/SC.lean: verdict, then thread:pc=result",
+                                    **(extra or {})}, found_input=True, program=p)
+        return unlisted
+
+    def witness_check(self, max_iters=20000, max_states=400000):
+        """re-run the witness of every listed finding of this property; print KNOWN-FINDING iff it
+        still fails on the implementation"""
+        ws = [k for k in self.known if k.get("witness") and k.get("kind") in
+              ("missing", "forbidden", "missed_failure", "abort", "badverdict")]
+        if not ws:
+            return
+        progs = list(dict.fromkeys(k["witness"] for k in ws))
+        impl = lvlib.run_impl(progs, max_iters=max_iters)
+        sc = lvlib.run_sc(progs, max_states)
+        for k in ws:
+            p = k["witness"]
+            its, done = lvlib.iterations(impl.get(p, []))
+            outs, _capped, _ = sc.get(p, (set(), True, 0))
+            explored = set(lvlib.outcome_str(it) for it in its)
+            kind, o = k["kind"], k.get("outcome", "")
+            if kind == "missing":
+                still = done and done[1] == "ok" and o in outs and o not in explored
+            elif kind == "forbidden":
+                still = o in explored and o not in outs
+            elif kind == "missed_failure":
+                still = done and done[1] == "ok" and any(x.startswith(o) for x in outs)
+            elif kind == "badverdict":
+                verdicts = set(x.split(" ")[0] for x in outs)
+                still = bool(done) and done[1] == o and lvlib.verdict_class(done[1]) not in verdicts
+            else:
+                still = bool(done) and done[0] == "?"
+            if still:
+                self.known_finding(k["id"], k.get("what", ""))
+            else:
+                self.cov.setdefault("findings_not_reproduced", []).append(k["id"])
 
     # ------------------------------------------------------------------ protocol
     def violation(self, kind, detail, found_input, program=None):
